@@ -328,6 +328,70 @@ def run(tier, seed):
             n_same += 1
             if len(samples) < 3:
                 samples.append({"object": o["name"], "position": f"{pos[0]}:{pos[1]}", "members": len(o.get("members", o.get("enumerators", [])))})
+    # ---- the size bounds the IR publishes for every message (`sizes`): minimum_size / maximum_size must bound every encoding of the definition
+    # and constant_sized must say whether all encodings have one length.  Decided against the interval of the Lean model, which is PROVED to
+    # contain every encoding (Thm/C09b bounds_lo_sound, Thm/C09c bounds_hi_sound / const_sized): published minimum <= model minimum and
+    # model maximum <= published maximum (the IR saturates at 2^32 - 1) discharge the obligation for all values at once; otherwise a
+    # generated canonical encoding outside the published interval is the witness
+    from semcorr import build_corpus, Driver
+    po_sz = [proof_obligations("WowVerif.Thm.C09b", ["wowdrv"]), proof_obligations("WowVerif.Thm.C09c")]
+    for p_ in po_sz:
+        add_proof_failures(rep, p_)
+    conts_ = [c for c in build_corpus() if "tokens" in c]
+    by_pos_c = collections.defaultdict(list)
+    for c in conts_:
+        by_pos_c[(os.path.relpath(c["file"], REPO), c["line"], c["name"])].append(c)
+    dsz = Driver()
+    n_sz = n_sz_ok = 0
+    for lib, k, o in ir_objs:
+        if k != "messages" or "sizes" not in o:
+            continue
+        pos = (o["file_info"]["file_name"], o["file_info"]["start_position"], o["name"])
+        vt = o["tags"]["version"]["version_type"]
+        cs_ = by_pos_c.get(pos, [])
+        if lib == "login":
+            vs_ = set(vt.get("versions", [])) if vt.get("login_version_tag") == "specific" else None
+            cs_ = [c for c in cs_ if vs_ is None or c["target"] in vs_]
+        else:
+            vs_ = [(v["major"], v["minor"], v["patch"]) for v in vt.get("versions", [])] if vt.get("world_version_tag") == "specific" else None
+            cs_ = [c for c in cs_ if vs_ is None or any(v[0] == c["target"][0] and (v[1] is None or v[1] == c["target"][1]) and (v[2] is None or len(c["target"]) < 3 or v[2] == c["target"][2]) for v in vs_)]
+        for c in cs_:
+            b_ = dsz.ask(f"bounds {c['key']}")
+            mb_ = re.match(r"lo=(\d+) hi=(\w+) fixed=(\w+)", b_)
+            if not mb_:
+                continue
+            lo_ = int(mb_.group(1))
+            hi_ = None if mb_.group(2) == "inf" else int(mb_.group(2))
+            fixed_ = None if mb_.group(3) == "no" else int(mb_.group(3))
+            sz = o["sizes"]
+            n_sz += 1
+            bad_ = None
+            if sz["constant_sized"] != (fixed_ is not None):
+                bad_ = f"constant_sized = {sz['constant_sized']} but the definition's encodings {'all have ' + str(fixed_) + ' bytes' if fixed_ is not None else 'do not all have one length'}"
+            elif sz["minimum_size"] > lo_:
+                bad_ = f"minimum_size = {sz['minimum_size']} but the definition has encodings of {lo_} bytes"
+            elif sz["maximum_size"] < min(hi_ if hi_ is not None else 1 << 40, (1 << 32) - 1) and not (
+                    hi_ is None and any(x_.startswith(t_) for x_ in c["tokens"] for t_ in ("UpdateMask", "InspectTalentGearMask", "AddonArray", "AchievementDoneArray", "AchievementInProgressArray", "MonsterMoveSpline"))):
+                # (built-in types whose maximum the model does not know: only the lower side is decided)
+                bad_ = f"maximum_size = {sz['maximum_size']} but the definition has encodings of up to {hi_ if hi_ is not None else 'any number of'} bytes"
+            if bad_ is None:
+                n_sz_ok += 1
+                continue
+            # witness: canonical encodings (shortest / long) outside the published interval
+            wit_ = None
+            for rq_ in [f"genmin {c['key']} 40"] + [f"gen {c['key']} {rng.below(1 << 40)} {ml_} {smp_}" for ml_ in (0, 2, 12, 60) for smp_ in (0, 1, 2, 3, 1000000)]:
+                g_ = dsz.ask(rq_)
+                if g_.startswith("ok"):
+                    n_ = 0 if g_.split()[1] == "-" else len(g_.split()[1]) // 2
+                    if n_ < sz["minimum_size"] or n_ > sz["maximum_size"] or (sz["constant_sized"] and fixed_ is None and wit_ is None and False):
+                        wit_ = (n_, g_.split()[1])
+                        break
+            info_ = {"object": o["name"], "position": list(pos), "container": c["key"], "published": sz, "model": {"lo": lo_, "hi": hi_, "fixed": fixed_}}
+            if wit_:
+                rep.violation(f"C10/sizes/{o['name']}@{pos[1]}", f"IR message {o['name']} ({pos[0]}:{pos[1]}): {bad_}; a canonical encoding of {wit_[0]} bytes lies outside the published sizes", dict(info_, encoding_hex=wit_[1][:4000], length=wit_[0]))
+            else:
+                rep.violation(f"C10/sizes/{o['name']}@{pos[1]}", f"IR message {o['name']} ({pos[0]}:{pos[1]}): {bad_}", dict(info_, theorem="bounds_lo_sound / bounds_hi_sound (Thm/C09b, C09c)"), no_input=True)
+    dsz.close()
     um_text = json.dumps([ir.get("vanilla_update_mask"), ir.get("tbc_update_mask"), ir.get("wrath_update_mask")])
     for pos, cands in src_by_pos.items():
         want = len({src_versions(c) for c in cands}) if not cands[0].get("pasted") else 1
@@ -342,9 +406,11 @@ def run(tier, seed):
         "programs": n_cmp, "disagreements_checked": n_cmp - n_same, "samples": samples or ["-"],
         "objects_in_ir": len(ir_objs), "objects_equal": n_same, "source_objects": len(src_by_pos), "test_vectors_in_ir": n_tests,
         "schema_errors": len(errs), "validator_selftest_mutations_rejected": muts,
+        "published_sizes_compared_with_the_proved_interval": n_sz, "published_sizes_sound": n_sz_ok,
+        "size_theorems": {k_: v_ for p_ in po_sz for k_, v_ in p_["theorems"].items()},
         "evaluations": n_cmp + 1, "distinct_nontrivial": n_cmp,
         "rule": "every object of intermediate_representation.json emitted by the current generator on a scratch copy, compared with the independent reading of the wowm source at its file_info position; RFC 8927 validation of the whole document",
-        "trusted_base": ["tools/wowm.py (independent front end)", "tools/jtd.py (RFC 8927 validator, self-tested on mutated instances)", "the comparison code in checks/c10.py", "no Lean theorem: translation validation of one generated artefact"],
+        "trusted_base": ["tools/wowm.py (independent front end)", "tools/jtd.py (RFC 8927 validator, self-tested on mutated instances)", "the comparison code in checks/c10.py", "translation validation of one generated artefact; the published size bounds are decided against the Lean interval proved sound in Thm/C09b, C09c"],
     }
-    rep.assumptions = ["free-text tags (comment / description) and the derived fields of the IR (sizes, prepared_objects, objects_used_in, update-mask tables) are not compared here; sizes are covered by C09, update-mask tables by C13"]
+    rep.assumptions = ["free-text tags (comment / description) and the derived fields prepared_objects, objects_used_in and the update-mask tables of the IR are not compared here (update-mask tables: C13); `sizes` of messages are compared with the proved interval, `sizes` of structs are not"]
     return rep.finish()
